@@ -228,11 +228,28 @@ class Grammar:
                 st.extend(d.get(x, ()))
         return out
 
+    def inline(self, e, _depth=0):
+        """replace references to SILENT rules by their expressions (a silent rule produces no pair, so
+        factoring an expression into one does not change what is matched or produced)"""
+        if _depth > 12:
+            return e
+        k = e["k"]
+        if k == "ident":
+            v = e["v"]
+            if v in self.rules and self.rules[v]["ty"] == "silent" and v not in ("WHITESPACE", "COMMENT"):
+                return self.inline(self.rules[v]["expr"], _depth + 1)
+            return e
+        out = dict(e)
+        for key in ("a", "b", "e"):
+            if key in e and isinstance(e[key], dict):
+                out[key] = self.inline(e[key], _depth + 1)
+        return out
+
     def seq_of(self, name):
-        return flatten(self.rules[name]["expr"], "seq")
+        return flatten(self.inline(self.rules[name]["expr"]), "seq")
 
     def choices_of(self, e):
-        return flatten(e, "choice")
+        return flatten(self.inline(e), "choice")
 
     def lexical(self, name, _stack=()):
         """rule is built from character-level terminals only (no reference to non-lexical rules)"""
